@@ -11,6 +11,12 @@ from .cli import VERIF, jsonable
 def write_evidence(mod, prop, tier, seed, merged, wall, new_violations, known_seen, units):
     d = mod.describe(tier)
     c = merged.counters
+    if c.get("sweep_cases") or c.get("sweep_objects") or c.get("file_extra_cases"):
+        from . import sweeps
+
+        d["rule"] += (f"; plus breadth sweeps (mc/sweeps.py): {len(sweeps.TOKENS)} tokens in every string role of a fixed scenario, near-miss variants of "
+                      f"registered strings, {len(sweeps.TWINS) + len(sweeps.URL_TWINS)} twin pairs, counts up to {max(sweeps.COUNTS)} "
+                      f"({int(c.get('sweep_cases', 0) + c.get('sweep_objects', 0) + c.get('file_extra_cases', 0))} sweep cases run)")
     states = getattr(merged, "states_override", None) or len(merged.states)
     nontrivial = getattr(merged, "nontrivial_override", None) or len(merged.nontrivial)
     coverage = {
